@@ -5,6 +5,7 @@ pub mod c03;
 pub mod c04;
 pub mod c06;
 pub mod c07;
+pub mod c08;
 pub mod c10;
 pub mod c12;
 pub mod c13;
@@ -20,6 +21,7 @@ pub fn all() -> Vec<Box<dyn Property>> {
         Box::new(c04::C04),
         Box::new(c06::C06),
         Box::new(c07::C07),
+        Box::new(c08::C08),
         Box::new(c10::C10),
         Box::new(c12::C12),
         Box::new(c13::C13),
